@@ -71,6 +71,11 @@ def run(ctx):
                         if err > nA * (1 + 1e-8) + 1e-10 * sc: viol(f'C12:{kind}:error-bound{tag}', f'||A - U diag(s) V^H||_F = {err:.3e} exceeds ||A||_F = {nA:.3e}', inp, err, nA)
                         if rankA <= R and err > 1e-8 * sc: viol(f'C12:{kind}:low-rank-exact{tag}', f'rank(A) = {rankA} <= R = {R} but the decomposition is not exact (error {err:.2e})', inp, err)
                         ctx.count((kind, m, n, cls, R, seed, tuple(sorted(kw.items()))), True, sample=inp if nrun == 7 else None)
+    _A, _, _ = spectral_problem(rng, 5, 4, [Fraction(4), Fraction(3), Fraction(2), Fraction(1)]); _A = qx.to_np(_A)
+    def _rq(X): np.random.seed(0); return qsvd.rand_qsvd(X, 2, oversample=2, n_iter=1)[1]
+    def _pq(X): np.random.seed(0); return qsvd.pass_eff_qsvd(X, 2, oversample=2, n_passes=3)[1]
+    cm.layout_sweep(ctx, qx, 'C12', 'rand_qsvd(values)', _rq, _A, {'shape': [5, 4], 'R': 2})
+    cm.layout_sweep(ctx, qx, 'C12', 'pass_eff_qsvd(values)', _pq, _A, {'shape': [5, 4], 'R': 2})
     res = cm.run_cases(ctx, 'cases_vals', HEADER, vterms, 'check_vals', shard=150)
     if res is not None:
         ctx.cov['traces_validated_against_impl'] += len(res)
